@@ -307,6 +307,19 @@ def operand_descr(o):
     return k
 
 
+def operand_descr_dtype(o):
+    """exact operand dtype (C03 signatures)"""
+    if T.is_scalar_term(o):
+        v = T.scalar_value(o)
+        return ("np:" if o[0] == "nps" else "py:") + np.asarray(v).dtype.name
+    if o[0] == "a":
+        o = o[1]
+    try:
+        return T.np_shape_dtype(o)[1].name
+    except Exception:  # noqa: BLE001
+        return "?"
+
+
 def blame_wrong_value(term, runner_fn):
     """smallest sub-term (post-order) that already computes a wrong value when
     run as its own program; gives violation signatures that name the operation
